@@ -289,8 +289,9 @@ func check(prop, tier string) int {
 	merged.Notes = append(merged.Notes, b.notes...)
 	var bounds []string
 	type jobViol struct {
-		job Job
-		v   Violation
+		job   Job
+		v     Violation
+		shard []string // arguments of the worker that reported it
 	}
 	var viols []jobViol
 	for _, job := range jobs {
@@ -344,7 +345,7 @@ func check(prop, tier string) int {
 				if b, err := os.ReadFile(tf); err == nil && len(b) > 0 {
 					parts := strings.SplitN(string(b), "\n", 2)
 					if len(parts) == 2 && parts[0] == prop {
-						viols = append(viols, jobViol{job, Violation{Prop: prop, Kind: "process-crash", Witness: parts[1], Detail: "the process is taken down by a panic in a goroutine started by gmars: " + ce.msg}})
+						viols = append(viols, jobViol{job, Violation{Prop: prop, Kind: "process-crash", Witness: parts[1], Detail: "the process is taken down by a panic in a goroutine started by gmars: " + ce.msg}, nil})
 						merged.Exhaustive = false
 						merged.Notes = append(merged.Notes, fmt.Sprintf("shard %d of job %s crashed and is not counted", i, job.Name))
 						continue
@@ -384,9 +385,14 @@ func check(prop, tier string) int {
 					merged.Notes = append(merged.Notes, nt)
 				}
 			}
+			shardArgs := []string{job.Engine, "-tier", tier, "-shard", fmt.Sprintf("%d/%d", i, n), "-cap", strconv.Itoa(capS)}
+			if !job.NoProps {
+				shardArgs = append(shardArgs, "-props", prop)
+			}
+			shardArgs = append(shardArgs, job.Args...)
 			for _, v := range r.Violations {
 				if v.Prop == prop {
-					viols = append(viols, jobViol{job, v})
+					viols = append(viols, jobViol{job, v, shardArgs})
 				}
 			}
 			if i == 0 && r.Bound != "" {
@@ -411,6 +417,7 @@ func check(prop, tier string) int {
 	perKind := map[string]int{}
 	tried := map[string]int{}
 	var unconfirmed []string
+	historyTried := map[string]bool{}
 	knownPrinted := map[int]bool{}
 	confirmed := 0
 	for _, jv := range viols {
@@ -435,6 +442,38 @@ func check(prop, tier string) int {
 			bin = b.race
 		}
 		okc, why := confirm(bin, jv.job, prop, v)
+		if !okc && jv.shard != nil && !historyTried[v.Kind] && confirmed == 0 {
+			// the case alone does not show it in a fresh process: it may depend on
+			// what the same worker executed before it (state kept by gmars across
+			// calls). Re-run the worker's whole shard twice: if both runs report
+			// the identical violation, it is a deterministic, history-dependent
+			// violation, and the shard is its replayable witness.
+			historyTried[v.Kind] = true
+			same := 0
+			for k := 0; k < 2; k++ {
+				r2, err := runWorker(bin, jv.shard, workerEnv())
+				if err != nil {
+					break
+				}
+				for _, x := range r2.Violations {
+					if x.Prop == prop && x.Kind == v.Kind && x.Witness == v.Witness && x.Detail == v.Detail {
+						same++
+						break
+					}
+				}
+			}
+			if same == 2 {
+				perKind[v.Kind]++
+				confirmed++
+				path := writeReplayShard(prop, jv.job, v, jv.shard)
+				lines = append(lines, fmt.Sprintf("VIOLATION property=%s replay=%s", prop, path))
+				lines = append(lines, fmt.Sprintf("  kind=%s witness=%s", v.Kind, trunc(v.Witness, 600)))
+				lines = append(lines, fmt.Sprintf("  detail=%s", trunc(v.Detail, 600)))
+				lines = append(lines, "  (history-dependent: the case alone does not show it in a fresh process; the same worker shard reports it identically on every run - replaying re-runs that shard)")
+				exit = 1
+				continue
+			}
+		}
 		if !okc {
 			// a candidate that does not reproduce in a fresh process is not
 			// believed (it can depend on state left by earlier executions of
@@ -573,6 +612,19 @@ type replayFile struct {
 	Witness  string   `json:"witness"`
 	Detail   string   `json:"detail"`
 	HowTo    string   `json:"how_to_replay"`
+	Shard    []string `json:"rerun_worker_shard,omitempty"` // history-dependent violation: re-run this worker
+}
+
+func writeReplayShard(prop string, job Job, v Violation, shard []string) string {
+	dir := filepath.Join(verifDir, "replays")
+	os.MkdirAll(dir, 0o755)
+	h := sha1.Sum([]byte(v.Kind + "\x00" + v.Witness))
+	path := filepath.Join(dir, fmt.Sprintf("%s-%s-%x.json", prop, v.Kind, h[:5]))
+	rf := replayFile{Property: prop, Engine: job.Engine, Args: job.Args, Inst: job.Inst, Race: job.Race, Kind: v.Kind, Witness: v.Witness, Detail: v.Detail,
+		HowTo: "cd /verif && ./run.sh replay " + path, Shard: shard}
+	b, _ := json.MarshalIndent(rf, "", " ")
+	os.WriteFile(path, b, 0o644)
+	return path
 }
 
 func writeReplay(prop string, job Job, v Violation) string {
@@ -613,12 +665,18 @@ func replay(path string) int {
 		bin = bl.race
 	}
 	args := append([]string{rf.Engine, "-props", rf.Property, "-replay", witnessArg(rf.Witness)}, rf.Args...)
+	if rf.Shard != nil {
+		args = rf.Shard // a history-dependent violation: the whole shard is the witness
+	}
 	rep, err := runWorker(bin, args, workerEnv())
 	if err != nil {
 		fatal("%v", err)
 	}
 	n := 0
 	for _, v := range rep.Violations {
+		if rf.Shard != nil && !(v.Kind == rf.Kind && v.Witness == rf.Witness) {
+			continue
+		}
 		if v.Prop == rf.Property {
 			fmt.Printf("VIOLATION property=%s replay=%s\n  kind=%s\n  witness=%s\n  detail=%s\n", v.Prop, path, v.Kind, trunc(v.Witness, 2000), trunc(v.Detail, 4000))
 			n++
